@@ -128,6 +128,30 @@ def special_positions(rng, n):
     ra = np.where(k == 5, ra - 360.0, ra)          # outside the principal range
     ra = np.where(k == 6, ra + 360.0, ra)
     ra = np.where(k == 7, rng.choice([45.0, 135.0, 225.0, 315.0], size=n), ra)
+    # vertices of the mesh at every level: the edges of the root octants are subdivided at their midpoints, so the
+    # positions ra = 90 j / 2^m on the equator and dec = +-90 j / 2^m on the meridians ra in {0, 90, 180, 270} are
+    # corners shared by up to six triangles of level m (and of every deeper level); they are exact in float64
+    m = rng.integers(1, 9, size=n)
+    j = (rng.integers(1, 2 ** 8, size=n) % (2 ** m)).astype("f8")
+    frac = 90.0 * j / 2.0 ** m
+    ra = np.where(k == 8, rng.choice([0.0, 90.0, 180.0, 270.0], size=n) + frac, ra)
+    dec = np.where(k == 8, 0.0, dec)
+    ra = np.where(k == 9, rng.choice([0.0, 90.0, 180.0, 270.0, 360.0], size=n), ra)
+    dec = np.where(k == 9, rng.choice([-1.0, 1.0], size=n) * frac, dec)
+    # corners and edge points of triangles inside the octants (not exact in float64: within an ulp of the edge)
+    for i in np.nonzero(k >= 10)[0]:
+        d = int(rng.integers(1, 7))
+        tid = int(rng.integers(8 * 4 ** d, 16 * 4 ** d))
+        c = H.triangle_corners(tid, d)
+        if k[i] == 10:
+            v = c[int(rng.integers(0, 3))]
+        else:
+            a_, b_ = c[int(rng.integers(0, 3))], c[int(rng.integers(0, 3))]
+            t = LD(rng.choice([0.5, 0.25, 0.75, rng.uniform(0, 1)]))
+            v = a_ * (1 - t) + b_ * t
+            v = v / np.sqrt((v * v).sum())
+        lon, lat = S.lonlat(v[:, None])
+        ra[i], dec[i] = float(lon[0]) % 360.0, float(np.clip(lat[0], -90, 90))
     return ra, dec
 
 
